@@ -2,6 +2,9 @@ package main
 
 import (
 	"fmt"
+	"os"
+	"path/filepath"
+	"time"
 )
 
 // C04: preconditions gate mutations exactly; a failed one changes nothing.
@@ -24,7 +27,7 @@ func init() {
 			return map[string]int{"c04.table": c04Conds * c04States * c04Ops * 2}
 		},
 	})
-	expectedProbes["C04"] = []string{"c04.pass", "c04.fail_412", "c04.fail_304", "c04.junk_400", "c04.absent", "c04.resumable_changed_meanwhile", "c04.compose_source_generation", "c04.compose_repeated_source_condition", "c04.conditional_request_in_batch"}
+	expectedProbes["C04"] = []string{"c04.pass", "c04.fail_412", "c04.fail_304", "c04.junk_400", "c04.absent", "c04.resumable_changed_meanwhile", "c04.compose_source_generation", "c04.compose_repeated_source_condition", "c04.conditional_request_in_batch", "c04.complete_resources_compared", "c04.object_of_generation_zero"}
 }
 
 // condsFromIndex decodes a truth-table index into parameters relative to the current object.
@@ -79,6 +82,10 @@ func runC04(r *Run) {
 	g := &gGen{store: store}
 	var shapes []string
 	step := func(op gOp) (gResp, bool) {
+		var before map[string]string
+		if op.Between == nil && op.Kind != "CreateBucket" {
+			before = rawStateG(w, m)
+		}
 		resp := execG(w, op)
 		r.Hist(map[string]interface{}{"op": op.String(), "status": resp.Status, "meta": resp.Meta.String()})
 		if r.Failed() {
@@ -101,6 +108,13 @@ func runC04(r *Run) {
 			r.Probe("c04.pass")
 		}
 		if !ok2xx(resp.Status) {
+			if before != nil {
+				if d := diffRawG(before, rawStateG(w, m)); d != "" {
+					r.Fail("failed-request-changed-state", "", "after the failing request %s (HTTP %d): %s", op, resp.Status, d)
+					return resp, false
+				}
+				r.Probe("c04.complete_resources_compared")
+			}
 			if k, msg := fullCompareG(w, m); k != "" {
 				r.Fail("failed-request-changed-state", "", "after the failing request %s (HTTP %d): %s", op, resp.Status, msg)
 				return resp, false
@@ -202,6 +216,35 @@ func runC04(r *Run) {
 		}
 		if _, ok := step(op); !ok {
 			return
+		}
+	}
+	// file store: an object whose generation is 0 (a content file without a sidecar whose
+	// modification time is the epoch - a hand-placed or legacy file). It exists, so "must not
+	// exist" (ifGenerationMatch=0) must refuse every mutation of it.
+	if store == "file" && r.Index%8 == 1 && !r.Failed() {
+		p := filepath.Join(w.Dir, "bkt", "epoch.dat")
+		if err := os.WriteFile(p, []byte("since the epoch"), 0666); err != nil {
+			harnessErr("plant: %v", err)
+		}
+		os.Chtimes(p, time.Unix(0, 0), time.Unix(0, 0))
+		if pm := parseMeta(w.GetMeta("bkt", "epoch.dat").JSON()); pm != nil && pm.Gen == 0 {
+			r.Probe("c04.object_of_generation_zero")
+			m.Buckets["bkt"]["epoch.dat"] = &gObj{Content: []byte("since the epoch"), ContentType: pm.ContentType, Metadata: map[string]string{}, Md5: pm.Md5, Gen: 0, Metagen: pm.Metagen}
+			zero := gConds{GenMatch: sp("0")}
+			for _, op := range []gOp{
+				{Kind: "Patch", Bucket: "bkt", Name: "epoch.dat", Conds: zero, Body: map[string]interface{}{"metadata": map[string]string{"z": "1"}}},
+				{Kind: "Compose", Bucket: "bkt", Name: "epoch.dat", Conds: zero, Srcs: []string{"src.bin"}, DstMeta: map[string]interface{}{}},
+				{Kind: "Upload", Proto: []string{"media", "multipart", "resumable"}[(r.Index/8)%3], Up: upSpec{Bucket: "bkt", Name: "epoch.dat", Content: []byte("replaced"), ContentType: "text/plain", Conds: zero}, Resum: &resumPlan{KnownTotal: true, Chunks: []int{3}}},
+				{Kind: "Delete", Bucket: "bkt", Name: "epoch.dat", Conds: zero},
+				{Kind: "Delete", Bucket: "bkt", Name: "epoch.dat"},
+			} {
+				if op.Kind == "Upload" && op.Proto != "resumable" {
+					op.Resum = nil
+				}
+				if _, ok := step(op); !ok {
+					return
+				}
+			}
 		}
 	}
 	// the same draws inside a random history on one contended name
